@@ -122,7 +122,10 @@ class Render:
         callee, args = e[1], e[2]
         a = ", ".join(self.expr(x) for x in args)
         if callee[0] == "fn":
-            return "%s(%s)" % (callee[1], a)
+            name = callee[1]
+            if name in self.p.get("lib_names", ()) and not self.p.get("rendering_lib"):
+                name = "lib." + name
+            return "%s(%s)" % (name, a)
         if callee[0] == "clo":
             return "%s(%s)" % (self.expr(callee[1]), a)
         if callee[0] == "method":
@@ -300,7 +303,10 @@ func rtkind__(m string) int {
 RTKIND = {"index": -1001, "nilderef": -1002, "divide": -1003, "assert": -1004}
 
 
-def render(prog, pkg="main", imports=("runtime", "sync")):
+def render(prog, pkg="main", imports=("runtime", "sync"), only_lib=None):
+    """only_lib: None = every function; True = only functions marked lib (package lib); False = only the others"""
+    prog = dict(prog)
+    prog["rendering_lib"] = bool(only_lib)
     r = Render(prog)
     out = ["package %s" % pkg, ""]
     if imports:
@@ -312,7 +318,7 @@ def render(prog, pkg="main", imports=("runtime", "sync")):
         out.append("var _ = runtime.Goexit")
         out.append("var _ sync.WaitGroup")
     out.append(PRELUDE)
-    for n, fields in prog.get("structs", {}).items():
+    for n, fields in (prog.get("structs", {}) if not only_lib else {}).items():
         out.append("type %s struct {" % n)
         for f, t in fields:
             emb = prog.get("embedded", {}).get(n, ())
@@ -322,7 +328,7 @@ def render(prog, pkg="main", imports=("runtime", "sync")):
                 out.append("\t%s %s" % (f, gotype(t)))
         out.append("}")
         out.append("")
-    for n, ms in prog.get("ifaces", {}).items():
+    for n, ms in (prog.get("ifaces", {}) if not only_lib else {}).items():
         out.append("type %s interface {" % n)
         for m, ps, rs in ms:
             out.append("\t%s(%s) %s" % (m, ", ".join(gotype(x) for x in ps),
@@ -331,6 +337,8 @@ def render(prog, pkg="main", imports=("runtime", "sync")):
         out.append("")
     for f in prog["funcs"]:
         if f.get("synthetic"):
+            continue
+        if only_lib is not None and bool(f.get("lib")) != only_lib:
             continue
         sub = Render(prog)
         sub.block(f["body"], 1)
